@@ -15,6 +15,9 @@ pub struct IntersectionMut<'a, P, L, R> {
     pub(super) table_l: &'a Table<P, L>,
     pub(super) table_r: &'a Table<P, R>,
     pub(super) nodes: Vec<IntersectionIndex>,
+    // The struct hands out `&'a mut` references to values. Make the auto traits (`Send`) behave as
+    // for `&'a mut` references, rather than as for the shared reference to the table.
+    _marker: std::marker::PhantomData<(&'a mut L, &'a mut R)>,
 }
 
 impl<'a, P, L, R> IntersectionMut<'a, P, L, R> {
@@ -31,6 +34,7 @@ impl<'a, P, L, R> IntersectionMut<'a, P, L, R> {
             table_l,
             table_r,
             nodes,
+            _marker: std::marker::PhantomData,
         }
     }
 }
